@@ -325,6 +325,14 @@ func c07Point(buf []int32, kind string, a, b, c int, mv *midiView) (sig []int32,
 		buf = append(buf, int32(x))
 	}
 	retain(kind, m)
+	if c07Points%16 == 3 {
+		// the caller writes into the message it got, then asks for the same message again
+		var p2 string
+		m2 := scribbled(m, func() (r []byte) { p2 = try(func() { r = callCtor(kind, a, b, c) }); return })
+		if p2 == "" && string(m2) != string(m) {
+			bad("after the caller overwrote the returned message, the same constructor call returns % X instead of % X (the result shares memory with the library)", m2, []byte(m))
+		}
+	}
 	if c07Points++; c07Points%64 == 0 {
 		if msg := retainCheck(); msg != "" {
 			bad("%s", msg)
